@@ -110,7 +110,47 @@ example : (match PST.setup 2 2 ([2, 7] : List K) 3 5 11 with
       | .error _ => false)
     | .error _ => false) = true := by decide
 
+/-- **Trimming a well-formed key** (the one `setup` publishes for a trapdoor `β⃗` over the monomial
+list `ts`) gives the well-formed committer key over exactly the monomials of degree `≤ s`, with
+`s + 1` γ-powers per variable, and the matching verifier key. -/
+theorem trim_wellformed_key (g γ h : F) (β : List F) (ts : List Term) (nv D s : Nat) (hs : s ≤ D)
+    (h0 : [] ∈ ts) :
+    PST.trim (PST.wfUP g γ h β ts nv D) s
+      = .ok (PST.wfCK g γ β (ts.filter (fun t => decide (Term.degree t ≤ s))) nv s D (s + 1),
+             PST.wfVK g γ h β nv s D) :=
+  PST.trim_wfUP g γ h β ts nv D s hs h0
+
+/-- **The trimmed specification list covers every monomial of degree `≤ s`** (all `n`, `D ≥ s`). -/
+theorem trimmed_key_covers (n D s : Nat) (hs : s ≤ D) :
+    ∀ t, PST.Covered n s t → t ∈ (specTerms n D).filter (fun t => decide (Term.degree t ≤ s)) :=
+  PST.covered_mem_filter n s (specTerms n D) (fun t ht =>
+    (mem_specTerms n D t).2 ⟨ht.1, ht.2.1, Nat.le_trans ht.2.2 hs⟩)
+
 /-! ### (e) completeness -/
+
+/-- **Nothing within the supported degree is refused by `commit`.** Key well-formed over a
+monomial list containing every monomial of degree `≤ s` in `nv` variables: any polynomial of
+degree `≤ s` — arbitrary mixed monomials — is committed, without hiding or with any hiding bound
+`1 ≤ hb ≤ s` (given an RNG with enough draws). -/
+theorem pst13_commit_total (g γ : F) (β : List F) (ts : List Term) (nv s D : Nat)
+    (hcov : ∀ t, PST.Covered nv s t → t ∈ ts) (p : MVPoly F)
+    (hp : polyWf p = true) (hpv : polyVarsBelow nv p = true) (hd : degreeMV p ≤ s)
+    (hb : Option Nat) (draws : List F)
+    (hhb : ∀ b, hb = some b → 1 ≤ b ∧ b ≤ s ∧ 1 + nv * (b + 1) ≤ draws.length) :
+    ∃ out, PST.commit (PST.wfCK g γ β ts nv s D (s + 1)) p hb true draws = .ok out :=
+  PST.commit_ok g γ β ts nv s D hcov p hp hpv hd hb draws hhb
+
+/-- **Nothing committed is refused by `open`**, at any point: polynomials of degree `≤ s`, blinding
+polynomials of the shape `commit` draws (univariate terms of degree `≤ m`, the number of γ-powers
+per variable), enough challenges. -/
+theorem pst13_open_total (g γ : F) (β : List F) (ts : List Term) (nv s D m : Nat)
+    (hcov : ∀ t, PST.Covered nv s t → t ∈ ts)
+    (ps rs : List (MVPoly F)) (z ξs : List F)
+    (hps : ∀ p ∈ ps, polyWf p = true ∧ polyVarsBelow nv p = true ∧ degreeMV p ≤ s)
+    (hrs : ∀ r ∈ rs, ∀ t ∈ termsOf r, PST.UniCovered nv m t)
+    (hξ : ps.length ≤ ξs.length) (hz : nv ≤ z.length) :
+    ∃ π, PST.open (PST.wfCK g γ β ts nv s D m) nv nv ps z rs ξs = .ok π :=
+  PST.open_ok g γ β ts nv s D m hcov ps rs z ξs hps hrs hξ hz
 
 /-- **Completeness, one polynomial.** Key well-formed for an arbitrary trapdoor `β⃗`
 (`powers_of_g[t] = g·t(β⃗)` over any monomial list `ts`, `powers_of_gamma_g[i][j] = γ·βᵢ^(j+1)`,
@@ -170,6 +210,40 @@ example : PST.check (PST.wfVK (3 : K) 5 11 [2, 7] 2 2 2) [27] [10, 20] [3] ⟨[1
 example : PST.check (PST.wfVK (3 : K) 5 11 [2, 7] 2 2 2) [27] [10, 20] [4] ⟨[10, 66], some 93⟩ [13]
     = .ok false := by decide
 
+/-- **End to end on the grid.** For every `(n, D)` of the grid and every `s ≤ D`: `setup`'s term
+list exists; the key published for any trapdoor over that list trims to degree `s`; and then every
+polynomial `p` of degree `≤ s` in `n` variables is committed, opened at every point `z`, and the
+opening is accepted.  (`_partial`: beyond the grid the first conjunct needs the general
+enumeration theorem, see `setupTerms_complete_partial`; stated without hiding — the hiding case
+is `pst13_commit_total` + `pst13_open_total` + `pst13_complete`.) -/
+theorem pst13_grid_end_to_end_partial (n D s : Nat) (hn1 : 1 ≤ n) (hn6 : n ≤ 6) (hD1 : 1 ≤ D)
+    (hD6 : D ≤ 6) (hs : s ≤ D) (g γ h : F) (β z : List F) (hβ : n ≤ β.length) (hz : n ≤ z.length)
+    (p : MVPoly F) (hp : polyWf p = true) (hpv : polyVarsBelow n p = true) (hd : degreeMV p ≤ s)
+    (ξ : F) :
+    ∃ l ck vk c π, setupTerms n D = .ok l ∧ PST.trim (PST.wfUP g γ h β l n D) s = .ok (ck, vk)
+      ∧ PST.commit ck p none true [] = .ok (c, [], [])
+      ∧ PST.open ck n n [p] z [[]] [ξ] = .ok π
+      ∧ PST.check vk [c] z [evalMV p z] π [ξ] = .ok true := by
+  obtain ⟨hl, _⟩ := C15Grid.grid n D hn1 hn6 hD1 hD6
+  have h0 : ([] : Term) ∈ specTerms n D := (mem_specTerms n D []).2 ⟨rfl, rfl, Nat.zero_le _⟩
+  have htrim := PST.trim_wfUP g γ h β (specTerms n D) n D s hs h0
+  have hcov := trimmed_key_covers n D s hs
+  obtain ⟨⟨c, r, rest⟩, hc⟩ := PST.commit_ok g γ β _ n s D hcov p hp hpv hd none []
+    (fun b hb => by cases hb)
+  obtain ⟨hr, hrest⟩ := PST.commit_none _ p true [] c r rest hc
+  subst hr; subst hrest
+  obtain ⟨π, ho⟩ := PST.open_ok g γ β _ n s D (s + 1) hcov [p] [[]] z [ξ]
+    (fun q hq => by simp only [List.mem_singleton] at hq; subst hq; exact ⟨hp, hpv, hd⟩)
+    (fun r hr t ht => by simp only [List.mem_singleton] at hr; subst hr; simp [termsOf] at ht)
+    (by simp) hz
+  refine ⟨specTerms n D, _, _, c, π, hl, htrim, hc, ho, ?_⟩
+  exact pst13_complete g γ h β _ n s D (s + 1) p none true [] c [] [] z ξ [] π hp hpv hβ hz hc ho
+
+/-- non-vacuity of the end-to-end hypotheses: the example polynomial has degree `2 ≤ s = D = 2`
+in `n = 2` variables -/
+example : degreeMV ([(4, []), (6, [(1, 1)]), (9, [(0, 1), (1, 1)]), (2, [(0, 2)])] : MVPoly K) ≤ 2 := by
+  decide
+
 /-! ### (f) the verifier decides exactly `defect = 0`; changed claims are refused -/
 
 /-- **`check` is the published relation.** Whenever the accumulation does not run out of
@@ -181,6 +255,9 @@ theorem check_iff_defect (vk : PST.VK F) (cs z vs : List F) (π : PST.Proof F) (
     (hlen : π.w.length ≤ vk.betaH.length ∧ π.w.length ≤ z.length) :
     PST.check vk cs z vs π ξs = .ok true ↔ PST.defect vk cs z vs π ξs = 0 :=
   PST.check_iff_defect vk cs z vs π ξs a hacc hlen
+
+/-- non-vacuity: the accumulation of the example claim succeeds (`27·13`, `3·13` in `ZMod 101`) -/
+example : PST.accumulate (0 : K) 0 [27] [3] [13] = .ok (48, 39, []) := by decide
 
 /-- **Wrong value refused.** The honest proof for `(p, z)` against the claim `p(z) + δ`:
 rejected whenever `δ·ξ·g·h ≠ 0`. -/
